@@ -93,7 +93,9 @@ func (d *vDriver) ReceiveProbe(timeout time.Duration) (*ProbeResponse, error) {
 		k := V.U8("which")
 		V.Assume(int(k) < len(d.sent))
 		ttl := d.sent[V.Concretize(int(k))]
-		resp := &ProbeResponse{TTL: ttl, IsDest: V.Bool("isDest"), IP: netip.AddrFrom4([4]byte{10, 0, 0, ttl}), RTT: time.Duration(V.NowNs() - d.sentAt[k])}
+		// the RTT is whatever the driver reports (the engine is generic in its driver): an arbitrary value, not tied
+		// to the model's clock - a later reply may carry a smaller RTT than an earlier one
+		resp := &ProbeResponse{TTL: ttl, IsDest: V.Bool("isDest"), IP: netip.AddrFrom4([4]byte{10, 0, 0, ttl}), RTT: time.Duration(V.U32("rtt"))}
 		d.replies++
 		d.accepted = append(d.accepted, *resp)
 		d.acceptedAt = append(d.acceptedAt, V.NowNs())
